@@ -9,6 +9,8 @@ Monitors (DESIGN.md section 3, C14):
            on random heterogeneous record streams, at --records-per-batch 1 and default
   shape    a fixed list of scoping / typing / indexing / emit shapes, each instantiated with random leaves
   emitverb emit / emitp by names against the grouping verbs (stats1, count-distinct), no interpreter involved
+  canary   indexed assignment to a scalar-valued / unset / absent variable must not change any other value
+           (other variables, fresh literals, typeof(@nosuch), typeof(""), 1==1): model-free regression guard
   docs     replay of the recorded executions (GENMD blocks) in the DSL reference pages
 
 The reference interpreter is vf/model/dslref.py (written from the docs, operates on the generator's AST);
@@ -877,6 +879,109 @@ def _norm_keys(rec):
 
 
 # ==========================================================================================
+# monitor: canaries around indexed assignment to scalar-valued / unset / absent variables (model-free)
+#
+# Regression guard for 1758e262f: `x=1; unset x; x[1]="a"` turned the process-wide ABSENT object into an array,
+# `b=true; b[1]="a"` broke every later `1==1`, `y=x; y["a"]=2` turned x into a map.  What the indexed variable itself
+# becomes is not documented (the reference interpreter declines there), so it is never printed; only values that the
+# statement must not touch are: other variables, fresh literals, typeof(@nosuch), typeof(""), the truth of 1==1.
+
+def _lit_text(v):
+    if v is True:
+        return "true"
+    if v is False:
+        return "false"
+    if isinstance(v, int):
+        return str(v)
+    return '"%s"' % v
+
+
+def canary_case(case):
+    rng = random.Random(case["seed"])
+    res = case_result(_h("canary", case["seed"]), nontrivial=False, evals=0)
+    lit = rng.choice([True, False, 0, 1, 5, 7, 100, "", "abc", "pan"])
+    L = _lit_text(lit)
+    key = rng.choice(["1", "2", '"a"', '"k"', "-1"])
+    val = rng.choice(['"a"', "2", "true", '{"q": 1}', "[9]"])
+    variant = case["variant"]
+    pre, canary_extra, exp_extra = "", "", []
+    lit_type = D.typeof(lit)
+    if variant == "unset_local":
+        stmt = "x = %s; unset x; x[%s] = %s;" % (L, key, val)
+    elif variant == "scalar_local":
+        stmt = "b = %s; b[%s] = %s;" % (L, key, val)
+    elif variant == "copy_of_scalar":
+        stmt = "x = %s; y = x; y[%s] = %s;" % (L, key, val)
+        canary_extra = "print typeof(x); print x;"
+        exp_extra = [lit_type, D.fmt_scalar(lit)]
+    elif variant == "absent_parameter":
+        pre = "func f(p) { p[%s] = %s; return 1 } subr s(p) { p[%s] = %s }" % (key, val, key, val)
+        stmt = "w = f(@nosuch); call s(@nosuch2); w2 = f(nolocal);"
+    elif variant == "scalar_oosvar":
+        stmt = "@o = %s; @c = @o; @o[%s] = %s;" % (L, key, val)
+        canary_extra = "print typeof(@c); print @c;"
+        exp_extra = [lit_type, D.fmt_scalar(lit)]
+    elif variant == "scalar_map_element":
+        stmt = 'm = {"k": %s, "other": %s}; m["k"][%s] = %s;' % (L, L, key, val)
+        canary_extra = 'print typeof(m["other"]); print m["other"];'
+        exp_extra = [lit_type, D.fmt_scalar(lit)]
+    elif variant == "array_slot":
+        stmt = "a = [%s]; a[%s][1] = %s; a[1][%s] = %s;" % (L, rng.choice(["2", "3", "5"]), val, key, val)
+    elif variant == "typed_local":
+        stmt = "var x = %s; if (true) { x[%s] = %s } num n = 3; unset n; n[%s] = 4;" % (L, key, val, key)
+    else:
+        raise ValueError(variant)
+    canaries = ("print typeof(@nosuch); print typeof(@nosuch2); print typeof(nolocal); print typeof(\"\"); print typeof(%s); z = %s; print typeof(z); print z;"
+                " if (1 == 1) {print \"eq\"} else {print \"ne\"} if (%s == %s) {print \"eq\"} else {print \"ne\"} print typeof(true); print typeof(1); print 1 + 1;"
+                " print is_present(@nosuch); print typeof([1,2][7]); print typeof({}[1]);" % (L, L, L, L)) + canary_extra
+    expected = ["absent", "absent", "absent", "empty", lit_type, lit_type, D.fmt_scalar(lit), "eq", "eq", D.typeof(True), "int", "2", "false",
+                "absent", "absent"] + exp_extra
+    in_main = rng.random() < 0.5
+    if in_main:
+        nrec = rng.randint(1, 3)
+        text = pre + " " + stmt + " " + canaries
+        argv = ["--ijson", "--ojsonl", "--records-per-batch", str(rng.choice([1, 500])), "put", "-q", text, "in.json"]
+        files = {"in.json": json_input([{"i": k + 1} for k in range(nrec)])}
+        expected = expected * nrec
+    else:
+        text = pre + " end { " + stmt + " " + canaries + " " + stmt + " " + canaries + " }"
+        argv = ["-n", "put", text]
+        files = {}
+        expected = expected * 2
+    r = R.mlr(argv, files=files)
+    res["evals"] += 1
+    if r.verdict == "slow":
+        res["inconc"] += 1
+        return res
+    sig = {"kind": "canary", "monitor": "canary", "variant": variant}
+    detail = {"argv": argv, "files": files, "expected": expected, "got": r.brief(1500)}
+    if r.crashed() or r.verdict != "exited":
+        add_violation(res, dict(sig, kind="crash-or-hang"), "canary %s: crash/hang for %s" % (variant, stmt), detail)
+        return res
+    if r.rc != 0:
+        # rejecting the statement outright would be a legitimate reading of the reference; nothing to observe then
+        res["skipped"] += 1
+        bump(res, "canary_statement_rejected")
+        return res
+    got = r.out.split("\n")
+    if got and got[-1] == "":
+        got.pop()
+    if got != expected:
+        bad = next((i for i in range(max(len(got), len(expected))) if i >= len(got) or i >= len(expected) or got[i] != expected[i]), None)
+        add_violation(res, sig, "canary %s: after `%s` an unrelated value changed (line %s: expected %r, got %r)"
+                      % (variant, stmt, bad, expected[bad] if bad is not None and bad < len(expected) else None,
+                         got[bad] if bad is not None and bad < len(got) else None), detail)
+        return res
+    res["nontrivial"] = True
+    bump(res, "canary_" + variant)
+    return res
+
+
+CANARY_VARIANTS = ["unset_local", "scalar_local", "copy_of_scalar", "absent_parameter", "scalar_oosvar", "scalar_map_element",
+                   "array_slot", "typed_local"]
+
+
+# ==========================================================================================
 # monitor: doc replay for the DSL pages
 
 DOC_PAGES = ["reference-dsl-variables.md", "reference-dsl-operators.md", "reference-dsl-control-structures.md",
@@ -1024,6 +1129,10 @@ def run(chk):
         n = 20 if q else 300
         cases = [{"seed": "%s/ev/%s/%d" % (chk.seed, v, i), "variant": v} for v in EMITVERB_VARIANTS for i in range(n)]
         chk.pmap(emitverb_case, cases, label="emitverb", chunksize=4)
+    if not only or "canary" in only:
+        n = 12 if q else 150
+        cases = [{"seed": "%s/canary/%s/%d" % (chk.seed, v, i), "variant": v} for v in CANARY_VARIANTS for i in range(n)]
+        chk.pmap(canary_case, cases, label="canary", chunksize=4)
     if not only or "docs" in only:
         cases, root = docs_cases(chk)
         try:
